@@ -59,3 +59,10 @@ chk('C05', 'exploration',
     'declared extent (traced stream). The model is cross-validated against llvm-dwarfdump -v on programs with max_ops = 1 in every run.',
     'Model from the standard; VLIW rows validated against the text only; unit and line table share format and address size.',
     'reference state machine oracle + traced-stream consumption check + third-implementation cross-validation', 'DESIGN.md section 4 C05')
+chk('C06', 'exploration',
+    'Ground truth for structure (entry order, kinds, header fields, CIE links incl. FDE-before-CIE, augmentation data, all nine pointer '
+    'encodings x pcrel, LSDA pointers, exact instruction lists) and a reference interpreter written from DWARF 5 6.4.2 for the decoded '
+    'tables (alignment factors, restore to initial rules, remember/restore nesting, expression rules) on generated .debug_frame and '
+    '.eh_frame sections; tables decoded in arbitrary order with stream poisoning.',
+    'Interpreter and generator mine; well-formedness constraints of 6.4.2 kept by the generator; canonicalised table comparison.',
+    'ground-truth generator + reference interpreter oracle, stream poisoning', 'DESIGN.md section 4 C06')
